@@ -125,8 +125,28 @@ def F9b():
     return img[:60] != ref[:60]
 
 
+def F12():
+    # an <svg> nested in a nested <svg>: both generated viewport clips got the id nested-svg-viewport-0
+    from picosvg.svg import SVG
+    src = ('<svg xmlns="http://www.w3.org/2000/svg" viewBox="0 0 100 100"><svg x="10" y="20" width="50" height="40" viewBox="0 0 200 100">'
+           '<path d="M1,1 L50,50 L1,50 z"/><svg viewBox="0 0 20 10"><path d="M2,2 L8,8 L2,8 z"/></svg></svg></svg>')
+    out = SVG.fromstring(src).resolve_nested_svgs().tostring()
+    import re
+    ids = re.findall(r'clipPath id="([^"]+)"', out)
+    return len(ids) != len(set(ids))
+
+
+def F13():
+    # presentation attributes of a nested <svg> are dropped instead of being inherited by its content
+    from picosvg.svg import SVG
+    src = ('<svg xmlns="http://www.w3.org/2000/svg" viewBox="0 0 100 100"><svg width="100" height="100" fill="red" opacity="0.5">'
+           '<path d="M4,4 L40,40 L4,40 z"/></svg></svg>')
+    out = SVG.fromstring(src).topicosvg().tostring()
+    return 'fill="red"' not in out or "opacity" not in out
+
+
 if __name__ == "__main__":
-    names = sys.argv[1:] or [f"F{i}" for i in range(1, 12)] + ["F9b"]
+    names = sys.argv[1:] or [f"F{i}" for i in range(1, 14)] + ["F9b"]
     for n in names:
         try:
             r = globals()[n]()
